@@ -44,6 +44,7 @@ type pscript struct {
 	writes     [][]byte
 	flush      []bool
 	flushFirst bool // Flush before the first Write (as streaming handlers and proxies do)
+	copyMode   int  // 0 Write; 1 io.Copy from a plain Reader (ReadFrom where offered); 2 io.Copy from a WriterTo
 	panicAt    int  // -1: never; k: before write k (0 = before anything is written); len(writes): after all writes
 	readBody   bool
 	readSizes  []int
@@ -239,7 +240,14 @@ func (r *siteRig) probe(label string, next httpserver.Handler, w http.ResponseWr
 		if !sc.explicit && i == 0 && sc.status != 200 {
 			w.WriteHeader(sc.status)
 		}
-		w.Write(b)
+		switch sc.copyMode {
+		case 1:
+			io.Copy(w, struct{ io.Reader }{bytes.NewReader(b)})
+		case 2:
+			io.Copy(w, bytes.NewReader(b))
+		default:
+			w.Write(b)
+		}
 		if i < len(sc.flush) && sc.flush[i] {
 			if f, ok := w.(http.Flusher); ok {
 				f.Flush()
@@ -757,6 +765,9 @@ func (r *siteRig) genReq(id, site string) *sreq {
 		}
 		// a Flush before any Write commits the header (an implicit 200)
 		sc.flushFirst = pick(10) && len(sc.writes) > 0 && (sc.explicit || sc.status == 200)
+		if pick(20) {
+			sc.copyMode = 1 + st.Draw(2)
+		}
 	}
 	if sc.readBody && sc.mode == "write" {
 		// the handler reports what it read in the response body
@@ -1042,7 +1053,7 @@ func (sc *pscript) describe() string {
 	for _, b := range sc.writes {
 		tot += len(b)
 	}
-	return fmt.Sprintf("{%s status=%d err=%v writes=%d(%dB) explicit=%v CL=%v CE=%q ctype=%q panicAt=%d readBody=%v}", sc.mode, sc.status, sc.retErr, len(sc.writes), tot, sc.explicit, sc.setCL, sc.preCE, sc.ctype, sc.panicAt, sc.readBody)
+	return fmt.Sprintf("{%s status=%d err=%v writes=%d(%dB) explicit=%v CL=%v CE=%q ctype=%q panicAt=%d readBody=%v flushFirst=%v copy=%d}", sc.mode, sc.status, sc.retErr, len(sc.writes), tot, sc.explicit, sc.setCL, sc.preCE, sc.ctype, sc.panicAt, sc.readBody, sc.flushFirst, sc.copyMode)
 }
 
 func (r *siteRig) dirSig() string {
